@@ -211,8 +211,9 @@ def run_hist(case):
             fails.append("array %s was read-only beforehand and is now writeable" % n)
     nz = sum(1 for v in _mem._array_counter.values() if v > 0)
     live_tr = sum(1 for r in _mem._array_tracker.values() if r() is not None)
-    if nz or live_tr or _mem._views_waiting_for_unlock:
-        fails.append("lock tables not empty at quiescence: counters=%d tracked(live)=%d waiting=%d" % (nz, live_tr, len(_mem._views_waiting_for_unlock)))
+    if nz or live_tr:
+        # (stale entries of _views_waiting_for_unlock can survive quiescence -- proved possible on the model, harmless for the flags)
+        fails.append("lock tables not empty at quiescence: counters=%d tracked(live)=%d" % (nz, live_tr))
     return {"oracle": fails, "exceptions": log}
 
 
